@@ -45,17 +45,21 @@ type Layout struct {
 	Modules      []LModule
 	Extra        []string // absolute remote paths under no root
 	TestMain     bool
+	// TestMainAt: where the go-test generated main lies: 0 under no root (go build temp dir),
+	// 1 below the first GOPATH's src, 2 below the first module, 3 below the Go root's src.
+	TestMainAt int
 }
 
 // fileTruth is the expected resolution of one remote path.
 type fileTruth struct {
-	Remote  string
-	Local   string
-	Rel     string
-	Import  string
-	Loc     stack.Location
-	Present bool
-	Known   bool // lies under one of the layout's roots
+	Remote   string
+	Local    string
+	Rel      string
+	Import   string
+	Loc      stack.Location
+	Present  bool
+	Known    bool // lies under one of the layout's roots
+	Testmain bool
 }
 
 func (l *Layout) localGoroot(base string) string {
@@ -327,6 +331,7 @@ func genLayout(t *rapid.T, nested bool) Layout {
 		}
 	}
 	l.TestMain = oneIn(t, 4, "testmain")
+	l.TestMainAt = rapid.IntRange(0, 3).Draw(t, "testmainAt")
 	return l
 }
 
